@@ -318,6 +318,8 @@ def analyse(ctx):
                 c.symtab_resolve.add(name)
             if name == 'define':
                 c.symtab_define_output = f['output'].replace(' ', '')
+            if any(i_.get('self') and i_.get('ref') and not i_.get('mut') for i_ in f['inputs']):
+                c.symtab_readonly = getattr(c, 'symtab_readonly', set()) | {name}
         _mir_symtab_effects(F, c)
         from rules import tables
         pt = tables.pratt_tables(ctx)
@@ -348,6 +350,8 @@ def analyse(ctx):
                         viols.setdefault(('O7', meth, tr, 'a jump emitted with a placeholder (%s) is never patched on this path' % ','.join(ops)), None)
                     if st.frames:
                         viols.setdefault(('R09.1', meth, tr, 'new_context() without leave_context() on this path'), None)
+                    if getattr(st, 'fall_pending', None) is not None and st.reach and st.frame == st.fall_pending:
+                        viols.setdefault(('O5', meth, tr, 'the function body can fall off its end (no Return/ReturnValue on some path)'), None)
                     if st.scopes != 0:
                         viols.setdefault(('R09.1', meth, tr, 'enter_scope()/leave_scope() unbalanced on this path (%+d)' % st.scopes), None)
                     if st.loops:
@@ -358,7 +362,7 @@ def analyse(ctx):
                             ob = 'O1' if CONTRACT[meth] == 1 else 'O2'
                             viols.setdefault((ob, meth, tr, 'the construct leaves the operand stack at height %s relative to its start; %s must leave %s'
                                               % (st.h, 'an expression' if ob == 'O1' else 'a statement', want)), None)
-                    arms.append({'method': meth, 'trace': tr, 'dh': repr(st.h) if st.reach else None, 'last': st.last, 'reach': st.reach,
+                    arms.append({'symops': list(getattr(st, 'symops', [])), 'method': meth, 'trace': tr, 'dh': repr(st.h) if st.reach else None, 'last': st.last, 'reach': st.reach,
                                  'emits': [e[0] for e in st.emits], 'code': st.code, 'end_pos': st.pos, 'bound_end': bool(st.bound)})
                     if top:
                         for k, h, f, r, asm in st.escapes:
